@@ -938,6 +938,18 @@ class Interp:
                         self.viol.append(("index-bounds", "%s cannot be shown for this slice expression (it panics otherwise)  [cannot derive %s from the path facts]" % (text, show_atom(atom)), line))
             st.facts = st.facts.add(*[a for a, _ in add])
             return ret(("win", w[1], nlo, nhi))
+        if re.search(r"slice::<impl \[T\]>::split_at(_mut)?$", nm) and is_win(args[0]) and isinstance(args[1], Lin) and args[0][3] is not None:
+            w = args[0]
+            lo, hi = w[2], w[3]
+            mid = lo + args[1]
+            atom = a_le(mid, hi)
+            if self.record and self.spec.index_bounds:
+                if st.facts.entails(atom):
+                    self.oblig.append(("index-bounds", "split point within the slice", line))
+                else:
+                    self.viol.append(("index-bounds", "split_at: the split point cannot be shown to lie within the slice (it panics otherwise)  [cannot derive %s from the path facts]" % show_atom(atom), line))
+            st.facts = st.facts.add(a_le(lo, mid), atom)
+            return ret(("agg", "tuple", {"0": ("win", w[1], lo, mid), "1": ("win", w[1], mid, hi)}))
         if re.search(r"copy_from_slice$", nm) and is_win(args[0]) and is_win(args[1]):
             d, s_ = args[0], args[1]
             if d[3] is not None and s_[3] is not None:
